@@ -496,6 +496,9 @@ impl Transform {
                             if !in_ellipsis {
                                 return None;
                             }
+                            // The repetition ended because one of its ellipsis variables ran
+                            // out. The others must start over at their next use too.
+                            env.rewind(template);
                             template_iter.next();
                         }
                     }
@@ -568,6 +571,22 @@ impl<'a> PatternEnvironment<'a> {
                 .iter()
                 .find(|it| it.0 == symbol)
                 .map(|it| it.1)
+        }
+    }
+
+    /// Reset the position of every expanded binding mentioned in `template`.
+    fn rewind(&mut self, template: &Cell) {
+        match template {
+            Cell::Symbol(_) => {
+                if let Some((_, iter)) = self.iters.iter_mut().find(|it| it.0 == template) {
+                    *iter = None;
+                }
+            }
+            Cell::Pair(car, cdr) => {
+                self.rewind(car);
+                self.rewind(cdr);
+            }
+            _ => {}
         }
     }
 
